@@ -31,6 +31,30 @@ type c07Route struct {
 	pre   string            // literal text the route adds before the escaped value
 	post  string
 	twice bool // the route escapes the value twice (an escape applied to escaped text escapes again)
+	// literal text that is escaped together with the value (the body of an apply block that holds more than the value:
+	// a macro, an include, a block … rendering text around it)
+	ipre, ipost string
+	// a light route runs on every input kind except the bulk ones (quick tier: one eighth of the byte pairs, by seed)
+	light bool
+}
+
+// want: the whole output of the route for a value whose escaped form is `escaped` (escaping is byte-wise, so the
+// escape of ipre+value+ipost is the concatenation of the three escapes)
+func (r c07Route) want(escaped string) string {
+	a, b := r.lit()
+	if r.twice {
+		escaped = html.EscapeString(escaped)
+	}
+	return a + escaped + b
+}
+
+// lit: the literal text of the output before and after the escaped value
+func (r c07Route) lit() (string, string) {
+	a, b := html.EscapeString(r.ipre), html.EscapeString(r.ipost)
+	if r.twice {
+		a, b = html.EscapeString(a), html.EscapeString(b)
+	}
+	return r.pre + a, b + r.post
 }
 
 func c07Routes() []c07Route {
@@ -39,7 +63,7 @@ func c07Routes() []c07Route {
 		for k, v := range extra {
 			t[k] = v
 		}
-		return c07Route{name, "main", t, pre, post, strings.HasPrefix(name, "twice-")}
+		return c07Route{name: name, main: "main", tpls: t, pre: pre, post: post, twice: strings.HasPrefix(name, "twice-")}
 	}
 	var rs []c07Route
 	for _, f := range []string{"e", "escape"} {
@@ -85,6 +109,7 @@ func c07Routes() []c07Route {
 			mk("apply-reentrant-include:"+f, "{% include 'inc' with {'x': v, 'n': 1, 'y': 'z'} %}",
 				map[string]string{"inc": "{% apply " + f + " %}[{{ x }}{% if n > 0 %}{% include 'inc' with {'x': 'i', 'n': 0, 'y': 'j'} %}{% endif %}{{ y }}]{% endapply %}"}, "[", "[ij]z]"),
 		)
+		rs = append(rs, c07ShapeRoutes(f)...)
 	}
 	return rs
 }
@@ -298,10 +323,9 @@ func c07CheckBatch(e *Env, engines []c07Engine, strs []string, want []string, ki
 			out, errs := c07Render(en, s)
 			bad := func(x string) bool {
 				o, er := c07Render(en, x)
-				w := c07Expect(en, html.EscapeString(x))
-				return er != "" || o != en.route.pre+w+en.route.post
+				return er != "" || o != en.route.want(html.EscapeString(x))
 			}
-			if errs != "" || out != en.route.pre+c07Expect(en, exp)+en.route.post {
+			if errs != "" || out != en.route.want(exp) {
 				small := s
 				if want == nil || html.EscapeString(s) == exp {
 					small = c07Shrink(s, bad)
@@ -309,13 +333,14 @@ func c07CheckBatch(e *Env, engines []c07Engine, strs []string, want []string, ki
 				r.Violate(Violation{Key: "escape-route-" + strings.SplitN(en.route.name, ":", 2)[0], What: fmt.Sprintf("route %s: output differs from Escape.escReg on %s input", en.route.name, kind),
 					Broken: "correspondence escape_reg (TwigModel.Escape.escReg vs filterEscape/html.EscapeString through " + en.route.name + ")",
 					Replay: map[string]any{"kind": "route", "route": en.route.name, "templates": en.route.tpls, "input_hex": c07Short(small), "full_input_len": len(s),
-						"impl_hex": c07Short(out), "impl_err": errs, "model_hex": c07Short(en.route.pre + c07Expect(en, exp) + en.route.post)}})
+						"impl_hex": c07Short(out), "impl_err": errs, "model_hex": c07Short(en.route.want(exp))}})
 				if r.Full() {
 					return
 				}
 				continue
 			}
-			inner := out[len(en.route.pre) : len(out)-len(en.route.post)]
+			la, lb := en.route.lit()
+			inner := out[len(la) : len(out)-len(lb)]
 			if ri == 0 {
 				first = inner
 				// implementation-only oracles on the escaped text itself (once per input: all routes are then compared to it)
@@ -456,6 +481,8 @@ func runC07(e *Env) error {
 	r.Rule = "every input is rendered through 36 routes (print, filter chain, apply block, apply next to text, macro via _self / import / from, include, include+apply, for body, set, filtered sub-expressions inside the operand or arguments of the escaping chain, an apply block re-entered through a recursive macro or a self-including template; each with e and escape) " +
 		"on a twig.New() engine and compared with Escape.escReg; inputs: all 256 single bytes and all 65 536 byte pairs (exhaustive), all triples over 24 (thorough: 40) selected bytes, regression strings, already-escaped text, random mixes of special characters, references, " +
 		"multi-byte and invalid UTF-8, 1 MiB strings, every Unicode scalar value (quick: 1 in 16 blocks of 4096 plus the boundaries; thorough: all 1 112 064), non-string values against html.EscapeString(toString(v)); " +
+		"apply-body shapes (22 light routes × two names: the body is exactly one print tag whose value is a macro call — local, _self, imported, from-imported, aliased — or parent(), a compound expression, exactly one include / block / if / for / nested apply, the same between trimmed whitespace or next to text; expected escape(text the body adds) + escReg(v)); " +
+		"macro-body text interpolated by the macro call (templates assembled from nodes: NewMacroNode + NewTextNode carrying {{ name|e }} placeholders, called by name, through import and from-import): 2 736 spellings of the placeholder (six kinds of blank in each of the four places, both names, the :argument form) against escReg(v), strings and non-string values; " +
 		"the nil-environment fallback (two routes × two names) against Escape.escFallback on the same single bytes, pairs, code points and random strings. " +
 		"non-trivial = input contains one of < > & \" ' or is not valid UTF-8; distinct by input"
 	// another engine of the same process replaces e / escape / raw by filters of its own BEFORE the engines under
@@ -489,6 +516,24 @@ func runC07(e *Env) error {
 		}
 	}
 
+	// light routes (apply-body shapes) skip the bulk in the quick tier: one eighth of the byte pairs (chosen by the seed), no
+	// byte triples, one of the 1 MiB strings; the node-built macro-text route skips pairs and triples
+	var heavy []c07Engine
+	for _, en := range engines {
+		if !en.route.light {
+			heavy = append(heavy, en)
+		}
+	}
+	lightBulk := e.Thorough()
+	nodes, err := c07BuildNodes()
+	if err != nil {
+		r.Violate(Violation{Key: "macro-text-build", What: "a template assembled from nodes (macro with a text body) cannot be registered or rendered: " + err.Error(), Broken: "C07 (macro text route, node.go renderVariableString)",
+			Replay: map[string]any{"kind": "macro-text"}})
+		nodes = nil
+	}
+	if nodes != nil {
+		c07NodeFailClosed(e)
+	}
 	run := func(strs []string, kind string) error {
 		var want []string
 		if e.Model != nil {
@@ -498,7 +543,17 @@ func runC07(e *Env) error {
 				return err
 			}
 		}
-		c07CheckBatch(e, engines, strs, want, kind)
+		engs := engines
+		if (kind == "byte-pair" || kind == "byte-triple" || kind == "1MiB") && !lightBulk {
+			engs = heavy
+		}
+		c07CheckBatch(e, engs, strs, want, kind)
+		// the macro-text route (templates assembled from nodes) on every input kind except the bulk ones
+		if kind != "byte-pair" && kind != "byte-triple" || e.Thorough() {
+			if nodes != nil && !r.Full() {
+				nodes.check(e, strs, want, kind)
+			}
+		}
 		r.Hit("inputs:" + kind)
 		return nil
 	}
@@ -530,6 +585,7 @@ func runC07(e *Env) error {
 		return err
 	}
 	for hi := 0; hi < 256 && !r.Full(); hi += 32 {
+		lightBulk = e.Thorough() || (hi/32)%8 == int(e.Seed%8)
 		pairs := make([]string, 0, 32*256)
 		for a := hi; a < hi+32; a++ {
 			for b2 := 0; b2 < 256; b2++ {
@@ -561,6 +617,7 @@ func runC07(e *Env) error {
 			}
 		}
 	}
+	lightBulk = e.Thorough()
 	for i := 0; i < len(triples) && !r.Full(); i += 8192 {
 		j := min(i+8192, len(triples))
 		if err := run(triples[i:j], "byte-triple"); err != nil {
@@ -627,6 +684,7 @@ func runC07(e *Env) error {
 			size = 1<<20 + 1 + e.Rng.Intn(4096)
 		}
 		s := c07Rand(e.Rng, size)
+		lightBulk = e.Thorough() || i == 0
 		if err := run([]string{s}, "1MiB"); err != nil {
 			return err
 		}
@@ -666,10 +724,10 @@ func runC07(e *Env) error {
 		r.Seen("val:"+typ+":"+strsOf[i], true)
 		for _, en := range engines {
 			out, errs := c07Render(en, v)
-			if errs != "" || out != en.route.pre+c07Expect(en, exp)+en.route.post {
+			if errs != "" || out != en.route.want(exp) {
 				r.Violate(Violation{Key: "value-" + strings.SplitN(en.route.name, ":", 2)[0], What: fmt.Sprintf("route %s on a %s value: output is not escape(toString(v))", en.route.name, typ),
 					Broken: "correspondence escape_reg ∘ toString (filterEscape on non-string values)",
-					Replay: map[string]any{"kind": "value", "route": en.route.name, "type": typ, "value": fmt.Sprintf("%#v", v), "tostring_hex": hx(strsOf[i]), "impl_hex": c07Short(out), "impl_err": errs, "want_hex": c07Short(en.route.pre + exp + en.route.post)}})
+					Replay: map[string]any{"kind": "value", "route": en.route.name, "type": typ, "value": fmt.Sprintf("%#v", v), "tostring_hex": hx(strsOf[i]), "impl_hex": c07Short(out), "impl_err": errs, "want_hex": c07Short(en.route.want(exp))}})
 				break
 			}
 		}
@@ -686,6 +744,10 @@ func runC07(e *Env) error {
 		if r.Full() {
 			return nil
 		}
+	}
+	// the same values as macro arguments interpolated into macro body text
+	if nodes != nil && !r.Full() {
+		nodes.checkValues(e, vals, strsOf, want, "value")
 	}
 	// does the print tag escape on its own? (recorded, not required by C07)
 	if out, _ := c07Render(plain, "<"); out == "<" {
